@@ -64,6 +64,21 @@ func (v *validCommon) initValid2FieldsMap(data *name2Value) {
 	v.valid2FieldsMap[data.validName] = append(v.valid2FieldsMap[data.validName], data)
 }
 
+// missRequired 规则里设置了 required 的 key, 但输入(map/url)里没有这个 key, 同样为必填错误
+func missRequired(errBuf *strings.Builder, fieldName, validNames string) {
+	for _, validName := range ValidNamesSplit(validNames) {
+		validKey, _, cusMsg := ParseValidNameKV(validName)
+		if validKey != Required {
+			continue
+		}
+		if cusMsg != "" {
+			errBuf.WriteString(GetJoinValidErrStr("", fieldName, "", cusMsg))
+			continue
+		}
+		errBuf.WriteString(GetJoinValidErrStr("", fieldName, "", ExplainEn, "it is", Required))
+	}
+}
+
 // either 判断两者不能都为空
 func (v *validCommon) either(errBuf *strings.Builder, fieldInfos []*name2Value) {
 	l := len(fieldInfos)
